@@ -64,6 +64,18 @@ CLAIMED['C10'] = dict(
   design_ref='DESIGN.md section 3 C10',
   note='Raw access point sockets bypass the limit by design (named in the property). Trusted: struct sizes; len(x.encode()) == len(x) induction.',
   technique='CFG lower-bound/dominance analysis + symbolic length agreement (ast)')
+CLAIMED['C17'] = dict(
+  category='other',
+  text='Decides per-site structural clauses of the addressing scheme: every store that creates a service access point is reached only after '
+       'the slot was tested free or its index was taken from .index(None) over the matching slice (CFG reachability), under the link lock, '
+       'and only the bind/remove/terminate functions write the table; the range constants of the three bind forms, the well-known map and the '
+       'table size are mutually consistent; a registered service name is released where the address is freed; the errno values that bind() '
+       'can raise are enumerated; dispatch, connect-by-name rewriting, recvfrom and service-discovery answers use the keys the property '
+       'names; a bound socket is refused before any table update. Allocation over long histories against a reference model is not decided.',
+  design_ref='DESIGN.md section 3 C17',
+  note='Known finding: EADDRNOTAVAIL on exhaustion of 16..31 (asserted by the pinned suite). Two defects repaired (name never released; '
+       'well-known bind overwrote an occupied address).',
+  technique='CFG dominance/reachability + constant-table agreement (ast)')
 NA_REASON = {}
 def main():
     checks = []
